@@ -143,10 +143,15 @@ def run(ctx):
         jf.flush()
         return ctx.finish()
     specs = {}
+    qkinds = {}
     for line in open(ops, errors="replace"):
         if line.startswith("spec "):
             _, cid, rest = line.rstrip("\n").split(" ", 2)
             specs[cid] = rest
+        elif line.startswith("hist ") and " qkinds=" in line:
+            for kvp in line.split(" qkinds=", 1)[1].split()[0].split(","):
+                k, _, v = kvp.partition(":")
+                qkinds[k] = qkinds.get(k, 0) + int(v or 0)
     rc, out = sh("%s < %s" % (driver, ops), timeout=3000)
     evals = 0
     distinct = set()
@@ -207,6 +212,7 @@ def run(ctx):
                 "(inline nodes fit, scanner-only flags clear), or one random sequence of array.h operations run on the real macros, or one "
                 "ts_subtree_can_inline/new_leaf probe; non-trivial := a history with >= 50 allocations, every array sequence and dump; distinct by hash of the spec",
         "samples": samples, "kinds": kinds, "history_kinds": hk, "allocations_observed": allocs,
+        "near_valid_queries": {"outcomes_of_Query_new": qkinds, "rule": "each compiled (or rejected) query is followed by an allocator-balance check"},
         "correspondence": {"compared": corr_cmp, "equal": corr_cmp - corr_bad},
         "judge": {"evaluated": evals, "passed": evals - judge_bad},
         "impl_vs_judge_failures": judge_bad, "model_vs_impl_disagreements": corr_bad,
